@@ -267,7 +267,8 @@ def run(ctx):
              dict(allocs=2, k=2, inc=1, req=3, outcomes=["ok", "nan_inc"])]
     sims = [dict(allocs=3, k=2, inc=2, req=8, outcomes=HANDLED, num=60), dict(allocs=2, k=2, inc=3, req=8, outcomes=ALL_OUTCOMES, num=60, limit=40)]
     if thorough:
-        plans = [dict(allocs=2, k=1, inc=2, req=3, outcomes=ALL_OUTCOMES), dict(allocs=2, k=1, inc=2, req=4, outcomes=["ok", "missing", "zero_inc"]),
+        plans = [dict(allocs=2, k=1, inc=2, req=3, outcomes=[o for o in ALL_OUTCOMES if o not in ("err_get", "err_usedb", "null")]),
+                 dict(allocs=2, k=1, inc=2, req=4, outcomes=["ok", "missing", "zero_inc"]),
                  dict(allocs=2, k=2, inc=1, req=3, outcomes=["ok", "missing", "err_exec"]), dict(allocs=3, k=1, inc=1, req=4, outcomes=["ok", "err_applied"]),
                  dict(allocs=1, k=2, inc=3, req=6, outcomes=["ok", "err_exec"]), dict(allocs=2, k=1, inc=3, req=6, outcomes=["ok"]),
                  dict(allocs=2, k=1, inc=5, req=6, outcomes=["ok", "fields1"], limit=27)]
